@@ -464,3 +464,26 @@ for _p in ('C05', 'C06', 'C14', 'C12', 'C17', 'C03', 'C18'):
 for _p, _k in {'C18': ('slx', 'session'), 'C02': ('slx',), 'C03': ('slx', 'skip', 'session'), 'C04': ('slx',), 'C05': ('session', 'client'), 'C06': ('session', 'client'),
                'C12': ('session', 'corder'), 'C14': ('session', 'client'), 'C17': ('session', 'sandwich'), 'C16': ('open',)}.items():
     if _p in PROPS: PROPS[_p]['env_kinds'] = _k
+
+# release-profile pass (tools/check.py): generators run again through the harness built with the release profile
+_REL = {
+ 'C05': lambda seed, th: [['client', seed, 40000 if th else 3000], ['session', seed, 4000 if th else 300]],
+ 'C06': lambda seed, th: [['client', seed, 40000 if th else 3000], ['session', seed, 4000 if th else 300]],
+ 'C14': lambda seed, th: [['client', seed, 40000 if th else 3000], ['session', seed, 4000 if th else 300]],
+ 'C12': lambda seed, th: [['corder', seed, 4000 if th else 300], ['session', seed, 4000 if th else 300]],
+ 'C07': lambda seed, th: [['extract', seed, 200000 if th else 6000]],
+ 'C10': lambda seed, th: [['extract', seed, 200000 if th else 6000]],
+ 'C08': lambda seed, th: [['upd', seed, 10000 if th else 400]],
+ 'C09': lambda seed, th: [['upd', seed, 10000 if th else 400]],
+ 'C13': lambda seed, th: [['poll', seed, 3000 if th else 300]],
+ 'C11': lambda seed, th: [['genall']],
+ 'C18': lambda seed, th: [['slxgen']],
+ 'C02': lambda seed, th: [['slxgen']],
+ 'C03': lambda seed, th: [['skipgen'], ['slxgen']],
+ 'C04': lambda seed, th: [['crashgrid']],
+ 'C16': lambda seed, th: [['hdr-open', seed, 300]],
+}
+for _p, _g in _REL.items():
+    if _p in PROPS:
+        PROPS[_p]['release_gens'] = _g
+        PROPS[_p]['rule'] = PROPS[_p].get('rule', '') + ' || release profile: a share of the same generators runs through the harness built with the release profile (no overflow checks, no debug assertions), requests tagged `@release`; cases for which the model predicts a dev-profile panic are dropped'
